@@ -1,2 +1,3 @@
 pub mod client;
 pub mod daemon;
+pub mod shm;
